@@ -39,6 +39,7 @@ def run(ctx):
         ctx.rule(rid, t)
 
     r23_5(ctx)
+    r23_6(ctx)
     # ---- R23.1 ------------------------------------------------------------------------------------------
     users = []
     for f in F.all_fns():
@@ -231,3 +232,26 @@ def r23_5(ctx):
                         'names used in findings, and then file-scoped (inline) suppressions silently stop matching' % (f['name'], x['l'], (call or {}).get('k'))),
                        '%s:%s' % (f['file'], x['l']))
     ctx.floor('R23.5 readers of Settings::basePaths in lib/', n, 4)
+
+
+def r23_6(ctx):
+    """R23.6  documented matching rule for the macro form: a `cppcheck-suppress-macro` suppression applies wherever the macro is expanded.  Its fileName is
+    the file of the #define, the finding's file is the file of the expansion, so the macro arm of Suppression::isSuppressed must not consult fileName."""
+    F = ctx.facts
+    ctx.rule('R23.6', 'the macro arm of Suppression::isSuppressed does not match on the suppression\'s file name')
+    f = F.one('SuppressionList::Suppression::isSuppressed')
+    body = F.body(f)['body']
+    arm = None
+    for x in walk(body):
+        if x.get('k') == 'IfStmt' and x.get('cond') is not None:
+            c = strip(x['cond'])
+            if c is not None and c.get('k') == 'BinaryOperator' and c.get('op') == '==' and any(y.get('n') == 'SuppressionList::Suppression::type' for y in walk(c)) and \
+                    any((y.get('n') or '').endswith('Type::macro') for y in walk(c)):
+                arm = x
+                break
+    if arm is None:
+        raise AnalysisBroken('Suppression::isSuppressed: the `type == Type::macro` arm was not found')
+    reads = [y for y in walk(arm.get('then') or {}) if y.get('k') == 'MemberExpr' and y.get('n') == 'SuppressionList::Suppression::fileName']
+    ctx.ob('R23.6', 'macro-arm-no-file', not reads, 'the macro arm matches on the macro name (and hash / id), not on the file of the #define' if not reads else
+           'the macro arm of Suppression::isSuppressed reads Suppression::fileName (line %s): the suppression carries the file of the #define, findings carry the file of the '
+           'expansion, so a macro suppressed in a header is no longer suppressed where it is used' % reads[0]['l'], '%s:%s' % (f['file'], (reads[0]['l'] if reads else arm['l'])))
